@@ -276,6 +276,9 @@ def gen(prop: str, rng: random.Random, tier: str) -> Dict[str, Any]:
                             "checkpoint": rng.random() < 0.3, "seed": rng.getrandbits(31), "len_seed": rng.randrange(1000), "max_len": rng.choice([1, 2, 4, 7]),
                             "ending": rng.choice(["term", "trunc", "mixed"]), "batch_size": rng.choice([2, 4, 5, 8]), "learn_step": rng.choice([1, 2, 3, 5, 8]),
                             "gens": rng.choice([1, 2, 2, 3]), "action_mask": rng.random() < 0.3}
+    # members whose step counters advance at different rates (different learn_step: mixed populations, or learn_step among the mutable hyper-parameters)
+    case["mixed_learn_step"] = rng.random() < 0.4
+    case["hp_learn_step"] = rng.random() < 0.4
     if loop == "off_policy":
         case["algo"] = rng.choice(OFF_ALGOS)
         case["memory"] = rng.choice(["uniform", "uniform", "per", "n_step", "per_n_step"]) if case["algo"] == "Rainbow DQN" else "uniform"
@@ -374,6 +377,8 @@ def _run(ctx: kernel.Ctx, case: Dict[str, Any], loc: Dict[str, Any], tmp: str) -
         env = _GymTracked(spec, n_envs if case.get("vectorised", True) else None, tr)
         obs_space, act_space = env.single_observation_space, env.single_action_space
     lr_names = {"lr_actor": RLParameter(min=1e-4, max=1e-2), "lr_critic": RLParameter(min=1e-4, max=1e-2)} if algo in ("DDPG", "TD3", "MADDPG", "MATD3") else {"lr": RLParameter(min=1e-4, max=1e-2)}
+    if case.get("hp_learn_step") and algo not in ("NeuralUCB", "NeuralTS", "CQN"):
+        lr_names["learn_step"] = RLParameter(min=1, max=16, dtype=int, grow_factor=1.5, shrink_factor=0.75)
     hp = HyperparameterConfig(batch_size=RLParameter(min=2, max=16, dtype=int), **lr_names)
     learn_step = case["learn_step"] if algo not in ("PPO", "IPPO") else max(2, case["learn_step"]) * 2
     INIT_HP = {"BATCH_SIZE": case["batch_size"], "LR": 1e-3, "LR_ACTOR": 1e-3, "LR_CRITIC": 1e-3, "LEARN_STEP": learn_step, "GAMMA": 0.9, "TAU": 0.1, "POLICY_FREQ": 2,
@@ -382,6 +387,11 @@ def _run(ctx: kernel.Ctx, case: Dict[str, Any], loc: Dict[str, Any], tmp: str) -
                "ENT_COEF": 0.01, "VF_COEF": 0.5, "MAX_GRAD_NORM": 0.5, "TARGET_KL": None}
     net_config = {"latent_dim": 16, "head_config": {"hidden_size": [16]}}
     pop = create_population(algo, obs_space, act_space, net_config, INIT_HP, hp_config=hp, population_size=P, num_envs=n_envs)
+    if case.get("mixed_learn_step") and P > 1 and hasattr(pop[0], "learn_step"):
+        for i, a in enumerate(pop):
+            if i % 2 == 1:
+                a.learn_step = max(1, learn_step // 2)
+        ctx.probe("mixed_learn_step_population")
     classes = [type(pop[0])]
     tournament = mutation = None
     if case["evo"]:
